@@ -108,6 +108,12 @@ def cases(E):
     # every block / named scope / application / iteration gets a scope object of its own (never an earlier sibling's)
     from vf.props import C08 as _c08
     cs += _c08.scope_creation_cases(E)
+    # a label passed to a macro by name (deferred argument) keeps denoting the CALL-SITE label, also when the body defines a label of the same name
+    from vf.props import C09 as _c09
+    for c in _c09.own_cases(E):
+        if "deferred_application_contract" in c.harness:
+            c.drop_overrides = list(c.drop_overrides) + ["a816.parse.ast.expression.eval_expression"]  # the real evaluator, as in C09's own engine
+            cs.append(c)
     return cs
 
 
